@@ -42,6 +42,7 @@ class InverterProtocol:
         self.protocol: asyncio.Protocol | None = None
         self.response_future: Future | None = None
         self.command: ProtocolCommand | None = None
+        self._retry: int = 0
         self._partial_data: bytes | None = None
         self._partial_missing: int = 0
 
@@ -459,6 +460,8 @@ class ProtocolCommand:
                 "No valid response received to '" + self.request.hex() + "' request."
             ) from None
         finally:
+            # every request starts with the full retry budget, whatever happened to this one
+            protocol._retry = 0
             if not protocol.keep_alive:
                 await protocol.close()
 
